@@ -25,9 +25,11 @@ pub struct MtSpec {
     pub hb: bool,
     pub schedule: Option<Vec<(u8, u32)>>,
     pub spurious_at: Option<Vec<(u8, u64)>>,
+    /// take a crash point every n-th atomic step (C06 with threads in flight; file-backed arena)
+    pub crash_every: Option<u64>,
 }
 
-#[derive(Clone, Debug, Default)]
+#[derive(Default)]
 pub struct MtOut {
     pub viols: Vec<Violation>,
     pub steps: u64,
@@ -49,6 +51,7 @@ pub struct MtOut {
     pub hb_checks: u64,
     pub events: Vec<String>,
     pub end_nodes: usize,
+    pub crash_points: Vec<mt::CrashPt>,
 }
 
 fn strategy_json(s: &Strategy) -> Value {
@@ -85,6 +88,7 @@ impl MtSpec {
             "hb": self.hb,
             "schedule": self.schedule.as_ref().map(|s| s.iter().map(|(t, n)| json!([t, n])).collect::<Vec<_>>()),
             "spurious_at": self.spurious_at.as_ref().map(|s| s.iter().map(|(t, n)| json!([t, n])).collect::<Vec<_>>()),
+            "crash_every": self.crash_every,
         })
     }
     pub fn from_json(v: &Value) -> Option<MtSpec> {
@@ -99,6 +103,7 @@ impl MtSpec {
             hb: v.get("hb").and_then(|x| x.as_bool()).unwrap_or(false),
             schedule: v.get("schedule").and_then(|s| s.as_array()).map(|a| a.iter().map(|e| (e[0].as_u64().unwrap_or(0) as u8, e[1].as_u64().unwrap_or(0) as u32)).collect()),
             spurious_at: v.get("spurious_at").and_then(|s| s.as_array()).map(|a| a.iter().map(|e| (e[0].as_u64().unwrap_or(0) as u8, e[1].as_u64().unwrap_or(0))).collect()),
+            crash_every: v.get("crash_every").and_then(|x| x.as_u64()),
         })
     }
 }
@@ -237,6 +242,7 @@ pub fn gen_spec(seed: u64, run: u64, fl: MtFlavour) -> MtSpec {
         hb: fl == MtFlavour::Hb,
         schedule: None,
         spurious_at: None,
+        crash_every: None,
     }
 }
 
@@ -247,7 +253,8 @@ pub fn run_spec(spec: &MtSpec, record_events: bool) -> MtOut {
     let _ = mt::drained_drops();
     // ---- set-up (single thread, counting mode)
     crate::hook::ST.with(|st| st.borrow_mut().reset());
-    let mut e = match Exec::<Arena>::new(spec.cfg, None, ExecOpts { check_reserved: true, spurious: None, crash_snaps: None }) {
+    let path = if spec.cfg.backend == Backend::File { Some(crate::st::scratch_dir().join(format!("m{}.arena", spec.sched_seed))) } else { None };
+    let mut e = match Exec::<Arena>::new(spec.cfg, path.clone(), ExecOpts { check_reserved: true, spurious: None, crash_snaps: None }) {
         Ok(e) => e,
         Err(_) => {
             out.setup_failed = true;
@@ -310,6 +317,7 @@ pub fn run_spec(spec: &MtSpec, record_events: bool) -> MtOut {
         hb: spec.hb,
         record_events,
         max_steps: 400_000,
+        crash_every: spec.crash_every,
     };
     mt::install(probe_arena, &params, initial);
     if spec.hb {
@@ -406,6 +414,10 @@ pub fn run_spec(spec: &MtSpec, record_events: bool) -> MtOut {
     out.teardowns = st.teardowns;
     out.hb_checks = st.hb_checks;
     out.events = st.events.take().unwrap_or_default();
+    out.crash_points = std::mem::take(&mut st.crash_points);
+    if let Some(p) = path {
+        let _ = std::fs::remove_file(p);
+    }
     out
 }
 
